@@ -58,6 +58,12 @@ def seq_of(E, v, st):
                                            patterns=[Q.At(fl, m)]))
             E.assumptions.add("itertools.chain(*xs): flattening characterised by membership (x in chain(*xs) iff x in some xs[i]); order unconstrained")
             return SVal(f(inner.t), TList(ety))
+        if v.kind == "gen":
+            from .comp import list_comp_from_gen
+            outs = list(list_comp_from_gen(E, v, st))
+            if len(outs) == 1 and outs[0][0] is st and isinstance(outs[0][1], SVal):
+                return outs[0][1]
+            raise OutsideSubset("generator expression whose evaluation forks")
         raise OutsideSubset(f"sequence view of {v.kind}")
     if isinstance(v, STuple):
         items = [_mat(E, i, st) for i in v.items]
@@ -454,7 +460,25 @@ def b_next(E, args, kw, st, node):
 
 
 def b_sum(E, args, kw, st, node):
-    raise OutsideSubset("sum()")
+    """sum of a list of ints through an uninterpreted function with the facts the solver can use: the empty sum is 0, a sum of
+    non-negative numbers is non-negative, and a sum of ones is the length (the `sum(1 for x in xs if p(x))` counting idiom)"""
+    if len(args) != 1 or kw:
+        raise OutsideSubset("sum() with a start value")
+    l = seq_of(E, args[0], st)
+    if not (isinstance(l.ty, TList) and l.ty.elem is INT):
+        raise OutsideSubset("sum() of non-integers")
+    srt = E.U.sort(l.ty)
+    first = not any(k[0] == "sum!int" for k in E.ufs)
+    f = E.uf("sum!int", [srt], z3.IntSort())
+    if first:
+        xs = z3.Const("xs!sum", srt)
+        i = z3.Int("i!sum")
+        inr = z3.And(0 <= i, i < Q.Length(xs))
+        E.axioms.append(z3.ForAll([xs], z3.Implies(Q.Length(xs) == 0, f(xs) == 0), patterns=[f(xs)]))
+        E.axioms.append(z3.ForAll([xs], z3.Implies(z3.ForAll([i], z3.Implies(inr, Q.At(xs, i) >= 0)), f(xs) >= 0), patterns=[f(xs)]))
+        E.axioms.append(z3.ForAll([xs], z3.Implies(z3.ForAll([i], z3.Implies(inr, Q.At(xs, i) == 1)), f(xs) == Q.Length(xs)), patterns=[f(xs)]))
+        E.assumptions.add("sum(): characterised only for empty lists, lists of non-negative numbers (>= 0) and lists of ones (== length)")
+    yield st, SVal(f(l.t), INT)
 
 
 def b_print(E, args, kw, st, node):
